@@ -3,6 +3,7 @@
 import json, os, subprocess
 ROOT = os.path.dirname(os.path.dirname(os.path.abspath(__file__)))
 
+FAULT = "E5 exhaustive fault enumeration on the real code (mc/fault): panic injection at every user-callback index / every single edit of every base serialization"
 SCHED = "E3 stateless DFS over task orders of run_schedule through the fork/join seam H2 (mc/sched, generated schedule family)"
 HIST = "E1 explicit-state BFS over operation histories on the real World (mc/hist)"
 CHECKS = {
@@ -42,6 +43,12 @@ CHECKS = {
  "C12": ("model_checking", "§2 C12", SCHED,
    "Same runs. On worlds where nothing is borrowed the partition of tasks into fork/join nests must equal a greedy in-order grouping by declared access computed by the harness; on populated worlds no task may run in a later nest than its greedy group. Termination: every explored order runs to completion under the seam; every schedule also returns on real pools of 1, 2 and 4 threads (regression guard, sampling).",
    "greedy reference ignores filters and entity::Identifier, as the property states"),
+ "C11": ("fault_enumeration", "§2 C11", FAULT,
+   "Every single edit (delete, duplicate, swap, alter; per-token-kind alterations incl. every bit flip of archetype identifier bytes, declared lengths +-1, field/struct renames, type changes) at every position of every base serialization in compact-token, human-readable-token and JSON-text form (JSON: also truncation at every byte offset, every value-tree edit, duplicated keys); thorough adds all swaps and all pairs of edits on the smallest bases. Each input is deserialized on the real code: Err (no double drop, no allocator misuse) or Ok(world) that passes the full structural audit, resolves every identifier, survives every continuation operation of a 12-op alphabet and drops cleanly.",
+   "declared lengths bounded by input size; serde_assert/serde_json are the environment; leaks on error paths are reported, not violations"),
+ "C17": ("fault_enumeration", "§2 C17", FAULT,
+   "For every (base world, operation that calls user code, callback kind, call index k below the count observed in the unfaulted run): a panic is armed at exactly that call, the operation is run, then each of 4 aftermaths (drop; read everything; clear; remove every identifier) is judged by the drop ledger and the checking allocator; process aborts from std's unsafe-precondition checks are attributed to the armed case by a supervising parent. 41 operations incl. remove, clear, Entry::add/remove, clone, clone_from (6 sources), drop, (de)serialization in 3 encodings, ==, Debug, run_system, run_par_system, run_schedule.",
+   "second panics never armed; leaks allowed; three (operation, callback) pairs are open known findings (known_findings.json)"),
 }
 NOT_YET = {
  "C03": "check under construction (E2 view/filter grid)",
@@ -72,7 +79,7 @@ def main():
             "engine": eng,
             "level_claimed": {"category": cat, "text": text, "design_ref": ref},
             "level_note": note,
-            "technique": TECH.get(pid, "explicit-state model checking of the implementation (exhaustive BFS over bounded operation histories, reference-model oracle)"),
+            "technique": TECH0.get(pid) or TECH.get(pid, "explicit-state model checking of the implementation (exhaustive BFS over bounded operation histories, reference-model oracle)"),
         })
     m = {
         "version": 1,
@@ -91,8 +98,11 @@ def main():
     }
     json.dump(m, open(os.path.join(ROOT, "MANIFEST.json"), "w"), indent=1)
 
+TECH0 = {"C11": "exhaustive enumeration of input edits (all single edits at all positions, 3 encodings) executed on the implementation, Err/valid-world oracle", "C17": "exhaustive enumeration of fault positions (every callback index of every operation on every base world) executed on the implementation, ledger/allocator oracle"}
 TECH = {p: "stateless model checking of the implementation: exhaustive enumeration of task orders per fork/join nest under a controlled scheduler, sequential reference / footprint oracle" for p in ("C07", "C08", "C12")}
 ENGINES = [
+ {"name": "fault", "path": "/verif/mc/fault", "serves_properties": ["C11", "C17"],
+  "kind_free_text": "exhaustive fault-position enumeration: supervisor + worker processes, each case executed on the real World inside the checking allocator with the drop ledger"},
  {"name": "sched", "path": "/verif/mc/sched", "serves_properties": ["C07", "C08", "C12"],
   "kind_free_text": "stateless exploration (DFS with prefix replay) of every admissible task order of run_schedule via the cfg(brood_verif) fork/join seam, generated schedule family x world catalogue, sequential reference + footprint oracle"},
  {"name": "hist", "path": "/verif/mc/hist", "serves_properties": ["C01", "C02", "C04", "C05", "C06", "C10", "C13", "C15", "C16"],
